@@ -114,7 +114,13 @@ class RecClock(i_lib.Clock):
         simnet.emit(('clock', 'pause_for', (delay,)))
 
     def wait_until(self, pattern):
-        simnet.emit(('clock', 'wait_until', (pattern,)))
+        # tabulated at the moment of the call (the object may be mutated later)
+        try:
+            table = frozenset(h * 60 + m for h in range(24) for m in range(60)
+                              if pattern.match(h, m))
+        except Exception as ex:
+            table = 'match raised {!r}'.format(ex)
+        simnet.emit(('clock', 'wait_until', (repr(pattern), table)))
 
 
 class RecOutput(i_lib.Output):
